@@ -292,7 +292,9 @@ class Runner:
                         disp[op[0]](op)
                     except Exception as e:  # pylint: disable=broad-except
                         self.flag('C08.catalogue', f'{op[0]}-raised-{type(e).__name__}', {'op': op, 'error': repr(e)}, 'operation completes')
-                self.audit(op)
+                # the sibling registrations of the decimal-prefix part are audited once, after the last of them
+                if self.step + 1 >= self.case.get('setup', 0):
+                    self.audit(op)
             if self.case.get('ids'):
                 # did the siblings really get the ids the case is about?
                 table, sname, sid, lname, lid = self.case['ids']
@@ -421,7 +423,7 @@ def id_pairs(n):
 def _thing(level, i, flav, run):
     '''[run, target, task, alg, alg ver, sv, sv ver, value, value ver] of sibling i'''
     n = _names(level, _sib(i), X) if level != 'run' else {lv: X for lv in LEVELS}
-    av = flav if level in ('run', 'task', 'alg') else V0
+    av = flav if level in ('task', 'alg') else V0  # one algorithm id for all runs / targets / state vectors / values
     sv = flav if level != 'val' else V0
     return [run, n['target'], n['task'], n['alg'], av, n['sv'], sv, n['val'], flav]
 
@@ -491,6 +493,7 @@ def id_prefix_cases(tier):
                     'tag': 'id-prefix:' + level,
                     'ids': [ID_TABLE[level], _sib(s), s, _sib(l), l],
                     'what': f'{level} ids {s} / {l}, {mode}',
+                    'setup': len(setup),
                     'ops': setup + _id_ops(short, long, mode),
                 }
     for rs, rl in ID_RUNS[tier]:
@@ -530,17 +533,17 @@ def run(tier: str, seed: int) -> dict:
     idp = list(id_prefix_cases(tier))  # seed independent
     cases = core + idp + rand
     deadline = t0 + sc.BUDGET_S[tier]
-    # the decimal-prefix part is never dropped for time (it is small and enumerated)
+    # the enumerated parts are small and never dropped for time; the sampled part stops at the deadline
     if procs > 1:
         import multiprocessing
 
-        jobs = [(idp[i :: procs * 2], None) for i in range(procs * 2)]
-        jobs += [((core + rand)[i :: procs * 8], deadline) for i in range(procs * 8)]
+        jobs = [((core + idp)[i :: procs * 2], None) for i in range(procs * 2)]
+        jobs += [(rand[i :: procs * 8], deadline) for i in range(procs * 8)]
         with multiprocessing.get_context('fork').Pool(procs) as pool:
             parts = pool.map(_work, [j for j in jobs if j[0]], chunksize=1)
         results = [r for part in parts for r in part]
     else:
-        results = _work((idp, None)) + _work((core + rand, deadline))
+        results = _work((core + idp, None)) + _work((rand, deadline))
     skipped = len(cases) - len(results)
     viol = sc.Violations()
     execs = 0
@@ -556,7 +559,7 @@ def run(tier: str, seed: int) -> dict:
         for f in found:
             inp = {'ops': case['ops'][: f['step'] + 1]}
             if case.get('tag'):
-                inp.update(tag=case['tag'], what=case['what'])
+                inp.update(tag=case['tag'], what=case['what'], setup=case.get('setup', 0))
             viol.add(f['clause'], f['signature'], inp, f['observed'], f['expected'])
     return {
         'cases': execs,
@@ -570,7 +573,7 @@ def run(tier: str, seed: int) -> dict:
             f'+ {len(idp)} enumerated, seed-independent decimal-prefix-id histories: {ID_SIBLINGS[tier]} siblings n00.. registered at one of the 5 levels '
             f'(ids 0..{ID_SIBLINGS[tier] - 1}) x every pair of ids (s,l), s one digit, l two, the digit of s occurring in l {id_pairs(ID_SIBLINGS[tier])[:5]}.. '
             f'and {len(ID_RUNS[tier])} pairs of run ids x {{only l has entries, only s has, both have}}: trace / reset / load / remove addressed at the one '
-            'without entries (or at each in turn), reopen, final remove; a history counts as effective when the two siblings really hold the ids s and l'
+            'without entries (or at each in turn), reopen, final remove, audited after every operation (the sibling registrations once, after the last); a history counts as effective when the two siblings really hold the ids s and l'
         ),
         'exhaustive': False,
         'samples': [core[1], core[2], rand[0], rand[1], idp[7]],
